@@ -22,7 +22,6 @@ IMPL = r"impl\s+RouterSocket\b"
 
 GLUE = """
 pub struct Elapsed { pub x: u8 }
-impl Duration { #[verifier::external_body] pub fn is_zero(&self) -> (r: bool) ensures r == (self.ns() == 0) { unimplemented!() } }
 // ---- ghost clock: `now` never goes back; reads() = every value returned by now(); timers() = for every timer armed, the latest
 // instant at which it can fire (sleep_until(dl): dl; sleep(d): arming instant + d, where the arming instant is whatever the
 // clock shows when the statement runs)
